@@ -1120,7 +1120,15 @@ fn c10(rng: &mut Rng, idx: usize) -> Case {
     }
     facts_stats(&f, &mut c);
     let with_roots = f.terms.iter().any(|t| t.0 == 1) && f.terms.iter().any(|t| t.0 == 118);
-    facts_to_prog(rng, &f, &ProgOpts { shuffle: true, failing_permille: 0, build_defaults: with_roots, slot: 0 }, &mut c);
+    // with rejected calls (absent terms, also with record ids that are never registered)
+    facts_to_prog(rng, &f, &ProgOpts { shuffle: true, failing_permille: 300, build_defaults: with_roots, slot: 0 }, &mut c);
+    // a record id is a key exactly if a successful call registered it
+    c.op("dump 0".to_string());
+    for k in 0..3 {
+        for rid in 31..=60u32 {
+            c.op(format!("rec 0 {} {}", KINDS[k], rid));
+        }
+    }
     c.op("sweep 0".to_string());
     c.op("iter 0".to_string());
     // id lookups at and around present ids, wrap-arounds of the id table
